@@ -16,7 +16,7 @@ PID = "C54"
 LEVEL = "proof"
 LEAN = ["SaVerif.Props.C54", "SaVerif.Props.C54MT", "SaVerif.Props.C54Merge"]
 META = {
-    "text": "Lean theorems, all for arbitrary operation sequences / arbitrary arguments: OrderedSet — the representation invariant (_list duplicate-free and equal as a set to the builtin-set part) is preserved by every method over any number of live sets with arguments of every kind (orderedset_inv), the iteration order of every live set after any history equals the insertion-ordered-set reference run (orderedset_refines_reference), every method's iteration order equals the insertion-ordered-set reference (survivors keep their order, new elements by first occurrence: *_spec, orderedset_order_is_first_insertion) and results are the mathematical set operations (*_mem); IdentitySet — no id held twice after any sequence, each operation is the set operation on ids, comparisons decide the set relations, order is first insertion; immutabledict — union/merge_with contents and key order equal the plain left-to-right merge whichever object (self / an argument / a fresh dict) is returned, lookup gives the last defining argument; LRUCache — one entry per key and unique counters after any history, size <= capacity*(1+threshold) after every __setitem__, the _manage_size loop terminates after one pass, evicted entries are strictly older than retained ones, the key just set survives, get/[] return only the value most recently stored under that key; under threads (Props/C54MT, a transition system with one atomic shared access per step, any number of threads, no fairness) every interleaving satisfies: get returns only values stored under the requested key, the try-lock section is mutually exclusive, and len - (threads owing a prune + failed try-locks) <= capacity*(1+threshold) — the sequential bound itself is proved NOT to be an invariant under threads (lru_mt_size_bound_is_tight). The four models are hand transcriptions tied to the pure-Python source by differential runs (random operation sequences plus exhaustive small scope, every live object observed after every step) and an independent Python reference oracle checks the property itself on the real objects.",
+    "text": "Lean theorems, all for arbitrary operation sequences / arbitrary arguments: OrderedSet — the representation invariant (_list duplicate-free and equal as a set to the builtin-set part) is preserved by every method over any number of live sets with arguments of every kind (orderedset_inv), the iteration order of every live set after any history equals the insertion-ordered-set reference run (orderedset_refines_reference), every method's iteration order equals the insertion-ordered-set reference (survivors keep their order, new elements by first occurrence: *_spec, orderedset_order_is_first_insertion) and results are the mathematical set operations (*_mem); IdentitySet — no id held twice after any sequence, each operation is the set operation on ids, comparisons decide the set relations, order is first insertion; immutabledict — union/merge_with contents and key order equal the plain left-to-right merge whichever object (self / an argument / a fresh dict) is returned, lookup gives the last defining argument; LRUCache — one entry per key and unique counters after any history, size <= capacity*(1+threshold) after every __setitem__, the _manage_size loop terminates after one pass, evicted entries are strictly older than retained ones, the key just set survives, get/[] return only the value most recently stored under that key; under threads (Props/C54MT, a transition system with one atomic shared access per step, any number of threads, no fairness) every interleaving satisfies: get returns only values stored under the requested key, the try-lock section is mutually exclusive, and len - (threads owing a prune + failed try-locks) <= capacity*(1+threshold) — the sequential bound itself is proved NOT to be an invariant under threads (lru_mt_size_bound_is_tight); merge_lists_w_ordering (Props/C54Merge, same anchored file) — for all duplicate-free lists the result holds exactly the elements of both, each once (merge_mem, merge_nodup, merge_perm, merge_length), for all lists it is a ++ b when nothing is shared and what only one list has keeps its order there (merge_disjoint, merge_order_left/right). The five models are hand transcriptions tied to the pure-Python source by differential runs (random operation sequences plus exhaustive small scope, every live object observed after every step) and an independent Python reference oracle checks the property itself on the real objects.",
     "note": "Trusted / modelled-not-verified: Lean kernel; builtin set/dict/list semantics (modelled as lists, validated by the correspondence); stdlib MutableMapping mixins used by LRUCache; the correspondence harness (differential). LRUCache threshold restricted to non-negative dyadic rationals; re-entrant size_alert not modelled; the threaded model trusts that sorted(dict.values()) is atomic under the GIL and is tied to the code by running small thread programs under the cooperative scheduler (line-granularity switches) and checking that every observed outcome is in the model's exhaustively explored reachable set. No _partial theorems: F9 (symmetric_difference_update duplicates) and F18 (IdentitySet.__ixor__ no-op) are fixed in /repo; symdiff_update_nodedup_counterexample proves the pre-fix variant violates the invariant.",
     "technique": "Lean 4 invariant/refinement proofs by induction over operation sequences + differential correspondence with the Python implementation + reference-semantics oracle",
     "design_ref": "DESIGN.md §3 C54",
